@@ -924,7 +924,8 @@ func (g *Gen) genAny(n int) *Term {
 			for i := 0; i < k; i++ {
 				args = append(args, g.Of(ts[r.Intn(len(ts))], n/(k+1)))
 			}
-			return must(Call(g.Sc, "Fast", args...))
+			// Tuple returns (and so keeps) the argument slice it was handed
+			return must(Call(g.Sc, r.Pick([]string{"Fast", "Tuple"}), args...))
 		case 5:
 			if !g.NoCalls && r.Bool() {
 				// nil as an argument next to another argument (reflect call path)
